@@ -119,7 +119,8 @@ impl Iterator for Query<'_> {
     type Item = Result<Numeric, Error>;
 
     fn next(&mut self) -> Option<Self::Item> {
-        let node = self.children.next()?;
+        // NB: blanks around the expressions are plain tokens of the root.
+        let node = self.children.next_node()?;
         Some(crate::eval::eval(self, node, Default::default()))
     }
 }
